@@ -459,3 +459,13 @@ package transaction
 //@   bytes: key
 //@   may-panic
 //@   ensures withdrawn: txn.committer == old(txn.committer) && (txn.committer.primaryKey != old(txn.committer.primaryKey) ==> txn.committer.primaryKey == nil && txn.committer.ttlManager.state != stateRunning)
+
+// ---- C04: every commit timestamp exceeds the start timestamp ------------------------------------------------------------
+// The two-phase commit proper (commitTxn) and the background commit of an async-commit transaction are started only
+// with a commit timestamp above the transaction's start timestamp - whatever the oracle or the stores answered.
+//@ func (*twoPhaseCommitter) execute
+//@   prop C04
+//@   may-panic
+//@   opaque-callee cleanup prewriteMutations checkSchemaOnAssertionFail stripNoNeedCommitKeys GetTimestampForCommit checkSchemaValid fillCommitTSLagDetails commitFlushedMutations checkOnePC checkAsyncCommit calculateMaxCommitTS needLinearizability getDetail pipelinedCancel primary shouldWriteBinlog spawn NewBackofferWithVars IsExpired GetOracle GetTimestampWithRetry updateMaxCommitTs getTimestampWithRetry GetMemBuffer Prewrite Skipped GetError
+//@   at call(commitTxn) assert above: c.commitTS > c.startTS
+//@   at call(spawn) assert aboveasync: c.commitTS > c.startTS
